@@ -109,9 +109,11 @@ fn posting_values(p: &Post) -> Result<Option<(Multi, Multi)>, &'static str> {
             m
         }
         Some(Price::Total(t)) => {
-            if v.is_zero() {
-                return Err("total price on a zero amount");
+            if v.is_zero() && !matches!(amount, AmountExpr::Lit(_)) {
+                // the sign of a zero computed by an expression is not something the statement fixes
+                return Err("total price on a zero-valued expression");
             }
+            // a literal zero quantity (`0 AAPL @@ 100 USD`) is valued at its total cost: +T
             let mut m = Multi::new();
             let t = t.num.q().abs();
             m.insert(t_commodity(p), if v.signum() < 0 { t.neg() } else { t });
